@@ -1575,6 +1575,23 @@ impl Model for Cw1Model {
                         v.push(Violation::new(c, format!("Execute by {} of {:?} accepted at height {h} time {t} but {detail}", cfg.label(by), msgs)));
                     }
                 }
+                // C08: native tokens leave the proxy for a non-admin only as bank sends charged to its
+                // allowance; a relayed burn is a spend no allowance accounts for
+                if cfg.kind == Kind::Subkeys && !by_admin {
+                    for (i, m) in msgs.iter().enumerate() {
+                        if let M::Burn(coins) = m {
+                            v.push(Violation::new(
+                                "C08.relayed_tokens_are_charged_to_allowance",
+                                format!(
+                                    "Execute by {} of {:?} accepted at height {h} time {t}: message {i} burns {:?} of the proxy's tokens, which no allowance covers and nothing is deducted for",
+                                    cfg.label(by),
+                                    msgs,
+                                    coins
+                                ),
+                            ));
+                        }
+                    }
+                }
                 // the ledger: a non-admin's sends come out of its allowance, coin by coin
                 if cfg.kind == Kind::Subkeys && !by_admin {
                     for m in msgs {
